@@ -41,6 +41,7 @@ func VerifC02Journal() {
 
 	// page writes
 	commit := n0
+	overshoot := 0
 	var written []int
 	cur := make([][]byte, n0)
 	copy(cur, img0)
@@ -81,6 +82,15 @@ func VerifC02Journal() {
 				rt.Assume(false) // a rolled-back growth is not modelled here
 			}
 		}
+		// a cache spill may have appended pages that the same transaction frees again: they are written
+		// beyond the size that is finally committed and cut off by SQLite's truncate afterwards
+		if scenario == 0 {
+			overshoot = rt.Choose("overshoot", 2)
+			for p := commit + 1; p <= commit+overshoot; p++ {
+				rt.Check(db.WriteDatabaseAt(ctx, dbf, rt.Bytes("spilled", verifP), int64(p-1)*verifP, 1) == nil, "page write beyond the final size")
+				written = append(written, p)
+			}
+		}
 	}
 	if rt.Symbolic() {
 		rt.FSLog, rt.FSLogOn = nil, true
@@ -97,7 +107,7 @@ func VerifC02Journal() {
 	rt.FSLogOn = false
 	rt.Check(err == nil, "journal finalisation succeeds")
 	rt.Check(len(w.exits) == 0, "Exit is never called by a journal commit")
-	if commit < n0 {
+	if commit < n0 || overshoot > 0 {
 		// SQLite truncates the file once the new size is committed
 		rt.Check(db.TruncateDatabase(ctx, int64(commit)*verifP) == nil, "TruncateDatabase to the committed size")
 	}
